@@ -4,6 +4,7 @@ package c01
 import (
 	"bytes"
 	stdjson "encoding/json"
+	"errors"
 	"fmt"
 	"io"
 	"math"
@@ -164,6 +165,28 @@ func Configs(x any) (ds []Disagreement, ok bool) {
 			return buf.Bytes(), err
 		})
 		add(ec.name, seg, ref)
+		// a writer that fails: the error comes back from the same Encode call, as with encoding/json
+		failing := func(enc func(w io.Writer) (error, error)) result {
+			return guard(func() ([]byte, error) {
+				e1, e2 := enc(&failingWriter{})
+				return []byte(fmt.Sprintf("first=%v second=%v", e1 != nil, e2 != nil)), nil
+			})
+		}
+		add(ec.name+"(failing writer)", failing(func(w io.Writer) (error, error) {
+			e := json.NewEncoder(w)
+			e.SetEscapeHTML(ec.escape)
+			if ec.indent != "" || ec.prefix != "" {
+				e.SetIndent(ec.prefix, ec.indent)
+			}
+			return e.Encode(x), e.Encode(x)
+		}), failing(func(w io.Writer) (error, error) {
+			e := stdjson.NewEncoder(w)
+			e.SetEscapeHTML(ec.escape)
+			if ec.indent != "" || ec.prefix != "" {
+				e.SetIndent(ec.prefix, ec.indent)
+			}
+			return e.Encode(x), e.Encode(x)
+		}))
 		// a writer that uses the package itself before consuming the bytes it is handed (framing, logging)
 		add(ec.name+"(re-entrant writer)", guard(func() ([]byte, error) {
 			w := &reentrantWriter{}
@@ -309,6 +332,10 @@ func typed(c *explore.Ctx) {
 		c.Case(map[string]any{"type": shape, "value": jgen.Describe(v)})
 	}
 }
+
+type failingWriter struct{}
+
+func (failingWriter) Write(p []byte) (int, error) { return 0, errors.New("write failed") }
 
 type reentrantWriter struct{ buf bytes.Buffer }
 
